@@ -82,6 +82,17 @@ type TokInfo struct {
 	Inputs []int64 // decorators: serials received for the same key
 }
 
+// ErrLike is an interface type that embeds error: a result declared with it is
+// an error result for dig just like one declared as error.
+type ErrLike interface {
+	error
+	Injected() bool
+}
+
+var errLikeType = reflect.TypeOf((*ErrLike)(nil)).Elem()
+
+func (e *InjErr) Injected() bool { return true }
+
 // InjErr is the error value returned by a stub under an err fault.
 type InjErr struct{ Fn, Exec int }
 
@@ -373,7 +384,9 @@ func FuncType(f *Func) reflect.Type {
 		in = append(in, varType)
 	}
 	for _, x := range f.Layout() {
-		if x < 0 {
+		if x == -1 && f.ErrLike {
+			out = append(out, errLikeType)
+		} else if x < 0 {
 			out = append(out, errType)
 		} else {
 			out = append(out, resultType(f, f.Results[x], true))
@@ -702,9 +715,13 @@ func (w *World) call(f *Func, ft reflect.Type, args []reflect.Value) []reflect.V
 	for k, x := range layout {
 		switch x {
 		case -1:
-			out[k] = reflect.Zero(errType)
+			et := errType
+			if f.ErrLike {
+				et = errLikeType
+			}
+			out[k] = reflect.Zero(et)
 			if fault != FaultNone {
-				out[k] = reflect.ValueOf(w.injErr(f.ID, exec)).Convert(errType)
+				out[k] = reflect.ValueOf(w.injErr(f.ID, exec)).Convert(et)
 				res = OutErr
 			}
 		case -2:
